@@ -3724,6 +3724,8 @@ class mulgrid(object):
         if columns == []: columns = list(self.columnlist) # (copy: the list is changed below)
         else:
             if isinstance(columns[0], str): columns = [self.column[col] for col in columns]
+            # (ignore any repeated columns)
+            columns = [col for i, col in enumerate(columns) if col not in columns[:i]]
         colmap = dict([(col.name, self.decompose_column(col.name, chars, spaces))
                        for col in columns])
         for c in self.missing_connections: self.add_connection(c)
